@@ -1,6 +1,8 @@
 package frost
 
 import (
+	"errors"
+
 	"github.com/taurusgroup/multi-party-sig/internal/round"
 	"github.com/taurusgroup/multi-party-sig/pkg/math/curve"
 	"github.com/taurusgroup/multi-party-sig/pkg/party"
@@ -57,8 +59,35 @@ func KeygenTaproot(selfID party.ID, participants []party.ID, threshold int) prot
 	return keygen.StartKeygenCommon(true, curve.Secp256k1{}, participants, threshold, selfID, nil, nil, nil)
 }
 
+// startError returns a StartFunc that fails with err.
+func startError(err error) protocol.StartFunc {
+	return func([]byte) (round.Session, error) { return nil, err }
+}
+
+// sameParties checks that participants are exactly the holders of the given verification shares.
+func sameParties(participants []party.ID, holders int, isHolder func(party.ID) bool) bool {
+	if len(participants) != holders {
+		return false
+	}
+	for _, id := range participants {
+		if !isHolder(id) {
+			return false
+		}
+	}
+	return true
+}
+
 // Refresh
 func Refresh(config *Config, participants []party.ID) protocol.StartFunc {
+	if config == nil || config.PrivateShare == nil || config.PublicKey == nil || config.VerificationShares == nil {
+		return startError(errors.New("frost.Refresh: config is nil or incomplete"))
+	}
+	if !sameParties(participants, len(config.VerificationShares.Points), func(id party.ID) bool {
+		share, ok := config.VerificationShares.Points[id]
+		return ok && share != nil
+	}) {
+		return startError(errors.New("frost.Refresh: participants are not the share holders of this config"))
+	}
 	return keygen.StartKeygenCommon(false, config.Curve(), participants, config.Threshold, config.ID, config.PrivateShare, config.PublicKey, config.VerificationShares.Points)
 }
 
@@ -68,6 +97,15 @@ func Refresh(config *Config, participants []party.ID) protocol.StartFunc {
 //
 // See: https://github.com/bitcoin/bips/blob/master/bip-0340.mediawiki#specification
 func RefreshTaproot(config *TaprootConfig, participants []party.ID) protocol.StartFunc {
+	if config == nil || config.PrivateShare == nil || len(config.PublicKey) != 32 || config.VerificationShares == nil {
+		return startError(errors.New("frost.RefreshTaproot: config is nil or incomplete"))
+	}
+	if !sameParties(participants, len(config.VerificationShares), func(id party.ID) bool {
+		share, ok := config.VerificationShares[id]
+		return ok && share != nil
+	}) {
+		return startError(errors.New("frost.RefreshTaproot: participants are not the share holders of this config"))
+	}
 	publicKey, err := curve.Secp256k1{}.LiftX(config.PublicKey)
 	if err != nil {
 		return func([]byte) (round.Session, error) {
@@ -111,6 +149,9 @@ func Sign(config *Config, signers []party.ID, messageHash []byte) protocol.Start
 //
 // See: https://github.com/bitcoin/bips/blob/master/bip-0340.mediawiki
 func SignTaproot(config *TaprootConfig, signers []party.ID, messageHash []byte) protocol.StartFunc {
+	if config == nil || config.PrivateShare == nil || len(config.PublicKey) != 32 || config.VerificationShares == nil {
+		return startError(errors.New("frost.SignTaproot: config is nil or incomplete"))
+	}
 	publicKey, err := curve.Secp256k1{}.LiftX(config.PublicKey)
 	if err != nil {
 		return func([]byte) (round.Session, error) {
